@@ -648,6 +648,35 @@ def enc(x):
     return x
 
 
+HP = 2305843009213693951
+
+
+def hmix(h, x):
+    return (h * 1000003 + x + 12345) % HP
+
+
+def pyhash(v, h=7):
+    """the digest of Model/X86AbiTypes.v (vhash) over the value as vlib.to_val would render it"""
+    if v is Internal or isinstance(v, Internal):
+        return hmix(h, 9)
+    if v is Diag or isinstance(v, Diag):
+        return hmix(h, 8)
+    if v is None:
+        return hmix(h, 6)
+    if isinstance(v, OkV):
+        return pyhash(v.v, hmix(h, 7))
+    if isinstance(v, bool):
+        return hmix(hmix(h, 2), int(v))
+    if isinstance(v, int):
+        return hmix(hmix(h, 1), v)
+    if isinstance(v, (list, tuple)):
+        h = hmix(h, 4 if isinstance(v, list) else 5)
+        for x in v:
+            h = pyhash(x, h)
+        return hmix(h, 17)
+    raise TypeError(repr(v))
+
+
 def val_ops(o):
     """implementation outcome -> value comparable with toval of the model"""
     if not isinstance(o, OkV):
@@ -776,7 +805,12 @@ def run(ctx):
         ctx.cov['stages']['correspondence'] = {'signatures': len(sigs), 'frames': len(frs), 'cases': len(cases)}
         for r in recs[:: max(1, len(recs) // 8)]:
             ctx.note_sample({'fn': r[0], 'input': repr(r[1])[:120]})
-        bad = ctx.run_cases('x86abi', ['Model.X86AbiTypes', 'Gen.Tab_x86abi', 'Model.X86Abi'], cases)
+        full = cases[:: max(1, len(cases) // 60)]            # a few cases compared structurally, all by digest
+        cases = [('digest (%s)' % m, pyhash(v)) for m, v in cases]
+        bad = ctx.run_cases('x86abi', ['Model.X86AbiTypes', 'Gen.Tab_x86abi', 'Model.X86Abi'], cases, shard=800)
+        bad2 = ctx.run_cases('x86abi_full', ['Model.X86AbiTypes', 'Gen.Tab_x86abi', 'Model.X86Abi'], full)
+        if bad2:
+            ctx.failed_stages.append(('correspondence', 'structural comparison disagrees on %d sampled cases' % len(bad2)))
         if bad:
             for i in bad[:5]:
                 ctx.log('model/implementation disagree on', recs[i][0], recs[i][1])
